@@ -82,10 +82,26 @@ class World(contextlib.AbstractContextManager):
         self.stdout = io.StringIO()
         self.log = io.StringIO()
         self.eig_calls = 0
-        self.eig_gaps: List[float] = []
+        self.eig_gaps: List[Dict[str, Any]] = []
         self._saved: List[Any] = []
 
     # ------------------------------------------------------------------ seams
+    def _record_spectrum(self, A, k):
+        """Relative gap between the k-th and (k+1)-th largest |eigenvalue| (small dense matrices)."""
+        try:
+            M = A.toarray() if hasattr(A, "toarray") else np.asarray(A)
+            if M.ndim != 2 or M.shape[0] != M.shape[1] or M.shape[0] > 64:
+                return
+            ev = np.sort(np.abs(np.linalg.eigvals(M)))[::-1]
+            top = ev[0] if ev.size and ev[0] > 0 else 1.0
+            if k is None:
+                gaps = [(ev[j] - ev[j + 1]) / top for j in range(len(ev) - 1)]
+                self.eig_gaps.append({"n": int(M.shape[0]), "k": None, "gaps": [float(x) for x in gaps]})
+            elif 0 < k < len(ev):
+                self.eig_gaps.append({"n": int(M.shape[0]), "k": int(k), "gaps": [float((ev[k - 1] - ev[k]) / top)]})
+        except Exception:  # noqa: BLE001 -- diagnostics only
+            pass
+
     def _wrap_eig(self, fn):
         world = self
 
@@ -95,7 +111,18 @@ class World(contextlib.AbstractContextManager):
                 rs = np.random.RandomState(H(world.arpack_seed, "arpack", world.eig_calls) & 0xFFFFFFFF)
                 kwargs["v0"] = rs.uniform(-1.0, 1.0, n)
             world.eig_calls += 1
+            world._record_spectrum(A, k)
             return fn(A, k, *args, **kwargs)
+
+        wrapped.__wrapped__ = fn
+        return wrapped
+
+    def _wrap_dense_eig(self, fn):
+        world = self
+
+        def wrapped(A, *args, **kwargs):
+            world._record_spectrum(A, None)
+            return fn(A, *args, **kwargs)
 
         wrapped.__wrapped__ = fn
         return wrapped
@@ -113,6 +140,12 @@ class World(contextlib.AbstractContextManager):
             orig = getattr(ssl, attr)
             self._saved.append((ssl, attr, orig))
             setattr(ssl, attr, self._wrap_eig(orig))
+        import scipy.linalg as sl
+
+        for attr in ("eigh", "eig"):
+            orig = getattr(sl, attr)
+            self._saved.append((sl, attr, orig))
+            setattr(sl, attr, self._wrap_dense_eig(orig))
         self._old_stdout = sys.stdout
         sys.stdout = self.stdout
         self._handler = logging.StreamHandler(self.log)
